@@ -11,8 +11,8 @@
  *   matchlist <string> (<inv> <pattern>)*  -> lyd_value_validate() on a leaf whose type has all the listed
  *                                  patterns, those with inv = 1 carrying "modifier invert-match": 1 / 0 / E
  *
- * Must be linked with -Wl,--wrap=pcre2_compile_8 (Comp.extra_cflags): __wrap_pcre2_compile_8 records
- * the pattern text and calls the real function.
+ * Linked with --wrap=pcre2_compile_8: __wrap_pcre2_compile_8 records the pattern text and calls the real function.
+ * VERIF_FLAGS: -Wl,--wrap=pcre2_compile_8
  */
 #include "common.h"
 
